@@ -4,6 +4,11 @@ ENGINES = [
      "kind_free_text": "own VC generator: clang JSON AST / python ast of the real sources -> path-wise symbolic execution with sidecar contracts -> one SMT query per obligation (z3 5.1, cvc5 on unknown); counterexamples replayed on code rebuilt from /repo"},
 ]
 NOTES = "Contract-based deductive verification with a self-built VC generator (no C/Python deductive verifier is installed). See DESIGN.md."
-CHECKS = {}
+CHECKS = {
+ "C03": dict(category="proof", design_ref="DESIGN.md §4 C03",
+   technique="contract-based deductive verification: pre/postconditions + stage lemmas on the real C functions (clang AST), VCs discharged by z3/cvc5; counterexamples replayed through ctypes",
+   text="Unbounded proof, for the property's whole domain (idx<2^63, n<2^32, d<=1e9, n*d<2^64, before year 9999), that get_timestamp_floor and get_sample_ceil return exactly floor/ceil of the rational expressions, with a no-wrap obligation at every + - * (so machine and mathematical arithmetic agree); get_unix_time_rational verified modularly against those contracts; monotonicity and round-trip are lemmas over the contracts; the extension/Python wrappers are checked for argument plumbing and int(ps/1e6)==ps//10^6 under the correctly-rounded-division model.",
+   note="trusted: gmtime (calendar breakdown, uninterpreted), PyArg_ParseTuple/Py_BuildValue, datetime constructor, IEEE correctly rounded division; our own VC generator (guarded by must-fail twins, covers, ledger, mutation self-tests)"),
+}
 _pending = "check not built yet in this round (work in progress, see DESIGN.md §8); not claimed until its obligations are generated and discharged"
-NOT_APPLICABLE = {f"C{i:02d}": _pending for i in range(1, 21)}
+NOT_APPLICABLE = {f"C{i:02d}": _pending for i in range(1, 21) if f"C{i:02d}" not in CHECKS}
